@@ -57,6 +57,10 @@ def files(variant="main"):
     up = G.add_service(fd, "Uploader")
     m(up, "Upload", P + ".Thing", P + ".Thing", client_streaming=True)
     m(up, "Ping", P + ".GetThingRequest", P + ".Thing", http=("get", "/v1/{name=shelves/*/things/*}:ping"))
+    if variant == "dup_leaf":
+        # method_signature with two dotted fields whose leaf names coincide
+        G.add_message(fd, "PairRequest", [G.F("a", 1, T.TYPE_MESSAGE, type_name=P + ".Thing"), G.F("b", 2, T.TYPE_MESSAGE, type_name=P + ".Thing")])
+        m(svc, "Pair", P + ".PairRequest", P + ".Thing", http=("post", "/v1/pair"), body="*", signatures=["a.name,b.name"])
     out.append(fd)
     return out
 
@@ -74,6 +78,7 @@ CONFIGS = {
     "no_snippets": ("autogen-snippets=false", None),
     "ads": ("python-gapic-templates=ads-templates,old-naming", None),
     "subpackage": ("", None),
+    "dup_leaf": ("autogen-snippets=false", None),
 }
 
 
@@ -118,7 +123,7 @@ def one_config(name):
     failures, n = [], 0
     label = {"config": name, "options": params}
     try:
-        api, res = G.generate(files("subpackage" if name == "subpackage" else "main"), params, service_yaml=yaml_, extra_dep_modules=(status_pb2, locations_pb2))
+        api, res = G.generate(files(name if name in ("subpackage", "dup_leaf") else "main"), params, service_yaml=yaml_, extra_dep_modules=(status_pb2, locations_pb2))
     except Exception as e:      # noqa
         return {"cases": 1, "failures": [dict(label, what="generation failed", error=repr(e)[:300], **({"known": "proto-sub-package"} if name == "subpackage" else {}))]}
     names = [f.name for f in res.file]
@@ -127,6 +132,7 @@ def one_config(name):
             n += 1
             try:
                 tree = ast.parse(f.content, f.name)
+                compile(f.content, f.name, "exec")        # duplicate arguments and the like are rejected by the compiler only
             except SyntaxError as e:
                 failures.append(dict(label, what="emitted file does not parse", file=f.name, error=str(e)))
                 continue
@@ -150,6 +156,10 @@ def one_config(name):
             if name == "subpackage":
                 for f in failures:
                     f["known"] = "proto-sub-package"
+            if name == "dup_leaf":
+                for f in failures:
+                    if "duplicate argument" in json.dumps(f) or "keyword argument repeated" in json.dumps(f):
+                        f["known"] = "duplicate-flattened-leaf-names"
             return {"cases": n + 1, "failures": failures}
         for mi in pkgutil.walk_packages(pkg.__path__, pkg.__name__ + "."):
             n += 1
@@ -191,6 +201,10 @@ def one_config(name):
     if name == "subpackage":
         for f in failures:
             f["known"] = "proto-sub-package"
+    if name == "dup_leaf":
+        for f in failures:
+            if "duplicate argument" in json.dumps(f) or "keyword argument repeated" in json.dumps(f):
+                f["known"] = "duplicate-flattened-leaf-names"
     return {"cases": n, "failures": failures}
 
 
